@@ -426,12 +426,12 @@ def gen_cases(ck):
     # three ranges: reduced lattice, every multiset (37 820) in a random order of ids (thorough: full lattice sample + reduced ordered)
     tri = list(itertools.combinations_with_replacement(REDUCED, 3))
     if not thorough:
-        tri = rng.sample(tri, 6000)
+        tri = rng.sample(tri, 4000)
     for t in tri:
         t = list(t)
         rng.shuffle(t)
         add_all_three(t, "exh3")
-    nrand = {3: 3000, 4: 5000, 5: 5000} if not thorough else {3: 300000, 4: 300000, 5: 300000}
+    nrand = {3: 2000, 4: 3000, 5: 3000} if not thorough else {3: 120000, 4: 150000, 5: 150000}
     for n, cnt in nrand.items():
         for _ in range(cnt):
             add_all_three([rng.choice(FULL) for _ in range(n)], "small%d" % n)
@@ -537,7 +537,17 @@ def main():
     ck = Check("C05", "proof")
     ck.lean_stage(["VelaVerif.Props.C05"])
     setup_real()
-    cases = gen_cases(ck)
+    if ck.replay_arg:
+        import json
+
+        def tup(x):
+            return tuple(tup(y) for y in x) if isinstance(x, list) else x
+        rp = json.load(open(ck.replay_arg if os.path.isabs(ck.replay_arg) else os.path.join(common.VERIF, ck.replay_arg)))
+        raw = rp["replay"]["input"]["case"]
+        cases = [tuple(tup(x) for x in raw)]
+        print("replaying", cases[0])
+    else:
+        cases = gen_cases(ck)
     ck.count("cases", len(cases))
     # run the real allocators in worker processes (fork: the patched modules are inherited)
     jobs = min(16, os.cpu_count() or 4)
@@ -623,6 +633,11 @@ def main():
             ck.count("size_%s_n%s" % (alloc, min(len(case[1]) if case[0] != "l" else len(case[2]), 6) if True else 0))
     # --- verdicts ------------------------------------------------------------------------------------
     def describe(ci):
+        d = describe0(ci)
+        d["case"] = cases[ci]
+        return d
+
+    def describe0(ci):
         c = cases[ci]
         if c[0] in ("g", "h"):
             return {"allocator": "Greedy" if c[0] == "g" else "HillClimb", "ranges(start,end,size,align[,name])": c[1][:40],
@@ -657,7 +672,7 @@ def main():
                       "model": out[:1500], "implementation": real[:1500]}, found_input=False)
     elif disagreements:
         ck.notes.append("model/code disagreements: %d (explained by the Spec rejections above)" % len(disagreements))
-    for ci in (0, len(cases) // 3, len(cases) // 2):
+    for ci in sorted({0, len(cases) // 3, len(cases) // 2}):
         r = results[ci][0]
         ck.sample({"request": r[1][:300], "implementation": (r[2] or "")[:200]})
     ck.finish({
@@ -667,7 +682,7 @@ def main():
                 "non-trivial when the set has >= 2 ranges of which two are alive at a common time (LinearAlloc: >= 2 ranges); "
                 "distinct by the full input tuple",
         "exhaustive": "quick: every single range and every unordered pair over 5 time steps x sizes {16,32,48,80} x alignments "
-                      "{16,32,64,128} (ids in random order), 6000 of the 37 820 three-range multisets of the reduced lattice "
+                      "{16,32,64,128} (ids in random order), 4000 of the 37 820 three-range multisets of the reduced lattice "
                       "(sizes {16,48}, alignments {16,64}); thorough: every ordered pair, every three-range multiset of the reduced "
                       "lattice; beyond that random samples of 3-5 ranges from the full lattice and random sets of 6-400 ranges",
         "disagreements": len(disagreements),
